@@ -141,7 +141,11 @@ def handle (j : Json) : Except String Json := do
   match op with
   | "close" =>
       let w ← worldOf (← fld j "world")
-      pure (Json.mkObj [("world", jWorld (close (← argBool j "strict") (← argBool j "hadConnection") w))])
+      let how : How := match (j.getObjValAs? String "how").toOption with
+        | some "rollback" => .rollback | some "error" => .error | some "commitFailed" => .commitFailed
+        | some "flushFailed" => .flushFailed | _ => .commit
+      let inTx := ((j.getObjValAs? Bool "inTransaction").toOption).getD true
+      pure (Json.mkObj [("world", jWorld (endSession how inTx (← argBool j "strict") (← argBool j "hadConnection") w))])
   | "step" =>
       let w ← worldOf (← fld j "world")
       let r := step { ambient := ← argBool j "ambient" } w (← argNat j "obj") (← opOf (← fld j "opr"))
